@@ -201,6 +201,71 @@ func runC06(env *Env) {
 			}
 		}
 	}
+	// the gateway in a loop: the winning alternative's branch leads back to the gateway, which must run a fresh
+	// race every time the token comes round
+	for _, rounds := range []int{2, 3} {
+		if rep.Saturated() {
+			break
+		}
+		cs := fmt.Sprintf("event-based gateway in a loop: alternative 0 wins %d times and returns to the gateway, then alternative 1 wins", rounds-1)
+		env.Current(cs)
+		p := &Prog{}
+		p.Node("start", "start")
+		p.Node("ebg", "EG")
+		p.Node("end", "end")
+		p.Flow("start", "EG", "")
+		for i := 0; i < 2; i++ {
+			c := p.Node("catch", fmt.Sprintf("C%d", i))
+			c.Inner = fmt.Sprintf(`<bpmn:signalEventDefinition id="sd%d" signalRef="sig%d"/>`, i, i)
+			p.Node("task", fmt.Sprintf("B%d", i))
+			p.Flow("EG", fmt.Sprintf("C%d", i), "")
+			p.Flow(fmt.Sprintf("C%d", i), fmt.Sprintf("B%d", i), "")
+		}
+		p.Flow("B0", "EG", "")
+		p.Flow("B1", "end", "")
+		defs, err := ParseDefs(p.XML(`<bpmn:signal id="sig0" name="sig0"/><bpmn:signal id="sig1" name="sig1"/>`))
+		must(err)
+		in, err := StartInst(defs, InstOpt{})
+		must(err)
+		rep.Evaluations++
+		rep.Nontrivial++
+		rep.Count("gateway_in_loop")
+		okAll := true
+		for r := 0; r < rounds && okAll; r++ {
+			win := 0
+			if r == rounds-1 {
+				win = 1
+			}
+			wantL := r + 1
+			// a catch event whose token was withdrawn stays "listening" (no new ActiveListeningTrace when the next
+			// token arrives): wait for the tokens' arrival, then a moment for their requests to be queued
+			if !in.WaitUntil(tmoStep, func(l []Ev) bool { return countEv(l, "visit", "C0") >= wantL && countEv(l, "visit", "C1") >= wantL }) {
+				rep.Violate("C06-one-winner", cs, fmt.Sprintf("round %d: the alternatives' tokens did not arrive at their catch events; log: %s", r+1, logString(in.Log())))
+				okAll = false
+				break
+			}
+			time.Sleep(6 * time.Millisecond)
+			in.Signal(fmt.Sprintf("sig%d", win))
+			b := fmt.Sprintf("B%d", win)
+			wantB := countEv(in.Log(), "task", b) + 1
+			if !in.WaitUntil(tmoStep, func(l []Ev) bool { return countEv(l, "task", b) >= wantB }) {
+				rep.Violate("C06-one-winner", cs, fmt.Sprintf("round %d: the winning alternative %d did not continue; log: %s", r+1, win, logString(in.Log())))
+				okAll = false
+				break
+			}
+			in.Answer(b, tmoStep)
+		}
+		if okAll {
+			if !in.WaitCease(tmoStep) {
+				rep.Violate("C06-completes", cs, "the instance did not complete; log: "+logString(in.Log()))
+			}
+			l := in.Log()
+			if countEv(l, "task", "B0") != rounds-1 || countEv(l, "task", "B1") != 1 {
+				rep.Violate("C06-one-winner", cs, fmt.Sprintf("B0 requested %d times (expected %d), B1 %d times (expected 1); log: %s", countEv(l, "task", "B0"), rounds-1, countEv(l, "task", "B1"), logString(l)))
+			}
+		}
+		in.Close()
+	}
 	// simultaneous delivery: every alternative's token runs the gateway's action transformer at the same
 	// moment (hook VerifEventGatewayRace, build tag verif): exactly one may continue, round after round
 	for _, n := range []int{2, 3} {
